@@ -126,7 +126,8 @@ structure VS where
   del : Nat → Option Nat := fun _ => none        -- delegator ↦ shares (Dec)
   sinfo : Nat → Option SInfo := fun _ => none    -- delegator ↦ starting info
   slashes : List SlashEv := []
-  bonded : Bool := true        -- validator status Bonded (false: Unbonding, it left the active set)
+  bonded : Bool := true        -- validator status Bonded (false: Unbonding or Unbonded, it left the active set)
+  unbonded : Bool := false     -- status Unbonded: the unbonding period of a validator that left the active set is over
   ubHeight : Nat := 0          -- UnbondingHeight (set when the validator leaves the active set)
   jailed : Bool := false
   -- ghost totals (never read by the code paths)
@@ -354,8 +355,12 @@ AfterValidatorBonded are empty) -/
 def VS.endBlock (v : VS) (h : Nat) : VS :=
   let active := !v.jailed && decide (POWER_REDUCTION ≤ v.tokens)
   if v.bonded && !active then { v with bonded := false, ubHeight := h }
-  else if !v.bonded && active then { v with bonded := true }
+  else if !v.bonded && active then { v with bonded := true, unbonded := false }
   else v
+
+/-- `UnbondAllMatureValidators` once the unbonding period is over: a validator that is still out of the active set
+becomes Unbonded (its delegations and distribution records stay; it has delegator shares, so it is not removed) -/
+def VS.matureVal (v : VS) : VS := if v.bonded then v else { v with unbonded := true }
 
 def cmpShares (name : String) (a b : Nat) : Bool :=
   if name == "LT" then decide (a < b)
@@ -545,6 +550,7 @@ structure State where
                                                          -- block are ONE entry of the SDK record (balances added up)
   gain : Nat → Nat := fun _ => 0                         -- reward coins received per account
   spent : Nat → Nat := fun _ => 0                        -- coins bonded per account
+  returned : Nat → Nat := fun _ => 0                     -- coins of completed unbonding entries paid back per account
   -- bank side: the module accounts the staking / distribution keepers move coins between
   bondedPool : Nat := 0                                  -- balance of the `bonded_tokens_pool` module account
   notBondedPool : Nat := 0                               -- balance of the `not_bonded_tokens_pool` module account
@@ -570,6 +576,7 @@ inductive Op
   | alloc (v amt : Nat)
   | slash (v power factor : Nat)
   | block
+  | mature              -- the unbonding period passes, then the staking EndBlocker (`BlockValidatorUpdates`) runs
   | jail (v : Nat)      -- staking `Jail`: out of the power index; the status changes at the next validator-set update
   | unjail (v : Nat)    -- staking `Unjail`
 deriving Repr, DecidableEq
@@ -611,6 +618,11 @@ def State.poolMove (s : State) (src dst : Bool) (amt : Nat) : State :=
 def State.poolBurn (s : State) (bonded : Bool) (amt : Nat) : State :=
   { s with bondedPool := if bonded then s.bondedPool - amt else s.bondedPool,
            notBondedPool := if bonded then s.notBondedPool else s.notBondedPool - amt, burned := s.burned + amt }
+
+/-- Σ balances of unbonding-delegation entries -/
+def ubdTotal : List (Nat × Nat × Nat × Nat) → Nat
+  | [] => 0
+  | e :: es => e.2.2.2 + ubdTotal es
 
 /-- number of entries of the SDK's unbonding-delegation record of `(d, v)`: `UnbondingDelegation.AddEntry` merges the
 entries created at one height (and completion time) -/
@@ -681,7 +693,9 @@ def State.exec (c : Cfg) (s : State) : Op → Except Err State
           -- `Redelegation.AddEntry` always appends (only `UnbondingDelegation.AddEntry` merges entries of one block);
           -- `getBeginInfo`: the entry of a Bonded source is stamped with the current height, that of an Unbonding source
           -- with the height at which the source validator left the active set
-          .ok { s1 with redel := s1.redel ++ [(d, src, dst, if (s.vs src).bonded then s.height else (s.vs src).ubHeight)] }
+          -- … and a redelegation away from an Unbonded source completes at once: no entry
+          .ok { s1 with redel := if (s.vs src).unbonded then s1.redel
+                                 else s1.redel ++ [(d, src, dst, if (s.vs src).bonded then s.height else (s.vs src).ubHeight)] }
   | .withdraw d v =>
     if !(s.okAcc d && s.okVal v) then .error .badArgs else
     match (s.vs v).withdrawMsg s.height d with
@@ -703,7 +717,8 @@ def State.exec (c : Cfg) (s : State) : Op → Except Err State
   | .alloc v amt =>
     if !(s.okVal v) then .error .badArgs else .ok { s.setVS v ((s.vs v).alloc amt) with distrIn := s.distrIn + amt }
   | .slash v power factor =>
-    if !(s.okVal v) || decide (ONE < factor) then .error .badArgs else
+    -- ("should not be slashing unbonded validator")
+    if !(s.okVal v) || decide (ONE < factor) || (s.vs v).unbonded then .error .badArgs else
     -- the burnt tokens are taken out of the pool that holds the validator's tokens
     .ok ((s.setVS v ((s.vs v).slash s.height power factor)).poolBurn (s.vs v).bonded
       ((s.vs v).tokens - ((s.vs v).slash s.height power factor).tokens))
@@ -711,6 +726,17 @@ def State.exec (c : Cfg) (s : State) : Op → Except Err State
   | .block => .ok { s with height := s.height + 1, vs := fun i => (s.vs i).endBlock s.height,
                            bondedPool := s.bondedPool - s.leaving + s.entering,
                            notBondedPool := s.notBondedPool + s.leaving - s.entering }
+  -- the unbonding period (21 days) passes and the staking EndBlocker runs: validator-set update as in `block`; the
+  -- validators that are still out of the active set become Unbonded; every unbonding-delegation entry is mature and is
+  -- paid back from the not-bonded pool; every redelegation entry is mature and is dropped; next height
+  | .mature =>
+    .ok { s with height := s.height + 1,
+                 -- a validator that leaves the active set in this very update has its unbonding period ahead of it
+                 vs := fun i => if (s.vs i).bonded then (s.vs i).endBlock s.height else ((s.vs i).endBlock s.height).matureVal,
+                 bondedPool := s.bondedPool - s.leaving + s.entering,
+                 notBondedPool := s.notBondedPool + s.leaving - s.entering - ubdTotal s.ubd,
+                 returned := fun d => s.returned d + ubdTotal (s.ubd.filter (fun u => u.1 == d)),
+                 ubd := [], redel := [] }
   | .jail v =>
     if !(s.okVal v) || (s.vs v).jailed then .error .badArgs
     else .ok (s.setVS v { s.vs v with jailed := true })
